@@ -1250,8 +1250,11 @@ class Interp:
                 else:
                     c.oblige("safe", "truth value of an array needs exactly one element", T.eq(v.n, 1))
             if v.dialect == "abs":
-                c.oblige("safe", "truth value of an engine value (symbolic under CasADi)", T.FALSE)
-                raise Infeasible()
+                # raises under CasADi with symbols; with numbers (NumPy) it depends on the value: the run goes on
+                # with that meaning, so that what the test then does to the results is seen too
+                c.oblige("safe", "truth value of an engine value (symbolic under CasADi)", T.FALSE, assume_after=False)
+                if not v.is_scalar:
+                    c.oblige("safe", "truth value of an array needs exactly one element", T.eq(v.n, 1))
             e = v.at(0)
             return e if e.sort == T.BOOL else T.ne(e, 0)
         if isinstance(v, SSeq):
@@ -1716,7 +1719,7 @@ class Interp:
             if p not in bound:
                 dj = j - (npos - ndef)
                 if dj >= 0:
-                    bound[p] = self.eval(defaults[dj], fn.env)
+                    bound[p] = self.eval(_def_time_default(defaults[dj]), fn.env)
                 else:
                     if packs:
                         raise Unsupported(f"parameter {p} may or may not be supplied by an opaque **kwargs")
@@ -1725,7 +1728,7 @@ class Interp:
             if p.arg not in bound:
                 if d is None:
                     raise PyRaise(ExcValue("TypeError", (f"{fn.name}() missing keyword-only argument '{p.arg}'",)))
-                bound[p.arg] = self.eval(d, fn.env)
+                bound[p.arg] = self.eval(_def_time_default(d), fn.env)
         if a.kwarg is not None:
             if packs:
                 sp = StarPack("+".join(p.name for p in packs), extra)
@@ -1844,6 +1847,9 @@ class Interp:
         @reg("any")
         def _any(it, a, k):
             x = a[0]
+            if isinstance(x, A.SIntList):  # a list of integers: an entry is truthy iff it is not 0
+                lst = x
+                x = SSeq(lst.n, lambda i: T.ne(lst.at(i), 0), f"non-zero entries of {lst.name}")
             if isinstance(x, SSeq):
                 # any() over link tuples / objects: truthy elements
                 probe = x.elem(T.fresh("anyprobe", T.INT))
@@ -2240,6 +2246,25 @@ class _Iter:
         v = self.items[self.pos]
         self.pos += 1
         return v
+
+
+def _def_time_default(node):
+    """python evaluates a default once, when the `def` runs; pyvc evaluates it at the call, which is the same
+    only for expressions without state: constants, names, attribute chains, signs, tuples of those"""
+    def simple(n):
+        if isinstance(n, (ast.Constant, ast.Name)):
+            return True
+        if isinstance(n, ast.Attribute):
+            return simple(n.value)
+        if isinstance(n, ast.UnaryOp):
+            return simple(n.operand)
+        if isinstance(n, ast.Tuple):
+            return all(simple(x) for x in n.elts)
+        return False
+
+    if not simple(node):
+        raise Unsupported("a default argument that is computed (a call, a list/dict display): evaluated once at definition time in python, not modelled")
+    return node
 
 
 class _SymIter:
